@@ -479,6 +479,16 @@ def random_pair(tape, clock, debug=False):
                     pos = tape.draw(len(spec2.body) + 1)
                     spec2.body.insert(pos, ['in', i.idx, len(i.pool) - 1, tape.draw(2), None])
                     break
+    # the same call on the OTHER instance of a resolver input (its alias resolves differently): recorded for one instance only
+    for i in spec2.inputs:
+        if i.resolver and tape.draw(2) == 1:
+            made = set((st[2] % len(i.pool), st[3] % 2) for st in spec.body if st[0] == 'in' and st[1] == i.idx)
+            lonely = sorted((n, d) for (n, d) in made if (n, 1 - d) not in made)
+            if lonely:
+                n, d = tape.choice(lonely)
+                after = max(k for k, st in enumerate(spec2.body) if st[0] == 'in' and st[1] == i.idx and st[2] % len(i.pool) == n and st[3] % 2 == d)
+                spec2.body.insert(after + 1 + tape.draw(len(spec2.body) - after), ['in', i.idx, n, 1 - d, None])
+                run.probe('same_call_on_the_other_instance_of_a_resolver_input')
     for o_ in spec2.outputs:
         o = Opt()
         o.fail_on = tape.draw(2) == 0
